@@ -15,11 +15,19 @@ META = {
              "non-empty trusted key list; generated key-id guards proved equal to their spec. Full for the BLS combination index "
              "(decode_encode, encode_lt_binom, decode_total_iff, decode_sound). Partial: finalize/validate round-trip and the flags "
              "of full Merge are decided by the Coq monitor on the implementation and by correspondence, not by a general theorem; "
-             "the BLS aggregation tree (sigtree) and BLS proof merging are not modelled.",
+             "Full for the BLS aggregation tree (Model/BlsTree.v, all key-set sizes 1..65535): tree layout of New, invariant over all "
+             "operation sequences (every bit < n and backed by a stored genuine aggregate; SigBits = real leaves covered by set nodes), "
+             "Tree.AddSignature cascade = union with the node's real leaves, MergeSparse total for any input with exact flags and "
+             "verified set union (monotone, idempotent, order irrelevant), AddSignature, no panic for any reachable state and input, "
+             "clone/derive frame, node ids fit 2 bytes iff n <= 32768 (sparse round trip refuted for 32769 keys, replayed on the real "
+             "code: known finding). Partial for the tree: Merge's exact bits/flags and the positive sparse round trip / cover property "
+             "of SparseIndices are decided by the monitor C13Blsm and the correspondence run, not by a theorem.",
     "note": "Trusted: Coq kernel, translator (cross-checked by the correspondence run), ideal-signature convention (DESIGN 3), "
             "bits-and-blooms/bitset, math/big.Binomial, blst, Go harnesses and generators. Clone independence is an aliasing "
             "property decided by the correspondence run and the monitor only. Two defects fixed in the repo worktree (simple "
-            "MergeSparse key-id length, BLS finalized key-id range); reverting either makes the check exit 1 with a replay.",
+            "MergeSparse key-id length, BLS finalized key-id range) and a third for the BLS tree (nil point dereference on undecodable "
+            "signature bytes, repo 5d01a2e); reverting any makes the check exit 1 with a replay. BLS ideal aggregate signatures: "
+            "aggregate unforgeability, no rogue keys, distinct keys.",
     "design_ref": "DESIGN.md 4 (C13)",
 }
 
@@ -814,7 +822,7 @@ def run_tree(c, proved):
     if "tree_case" in rp:
         cases = [rp["tree_case"]]
     else:
-        cases = [g.case() for _ in range(120 if c.tier == "quick" else 4000)]
+        cases = [g.case() for _ in range(120 if c.tier == "quick" else 2000)]
     lines = [json.dumps(strip(cs)) for cs in cases]
     run_big = "tree_case" not in rp
     if run_big:
@@ -885,7 +893,6 @@ def run_tree(c, proved):
     big_cov = {}
     if run_big and bigobs:
         ob = bigobs[0][0] if bigobs[0] else [999]
-        want = [2 * 65536 - 1 - 65535 + 0]   # placeholder, replaced below
         want = [65536, -1, 1, 1, 0, 0, 1]    # id of node (0,1), all valid, increased, bits {0,1}
         big_cov["big_roundtrip_n"] = BIG_N
         big_cov["big_roundtrip_observed"] = ob
@@ -946,10 +953,15 @@ def main(argv):
         "bits-and-blooms/bitset v1.20 (Set/Test/Count/IsStrictSuperSet/CopyFull) modelled as N bit masks",
         "math/big.Binomial = binomial coefficient (Model/CombIndex.v computes Pascal rows); blst group law and pairing check (not modelled)",
         "Go harness /verif/harness/c13bls using the verif hook gcrypto/gblsminsig/verif_hooks.go (wrappers only)",
+        "Go harness /verif/harness/c13tree (real gblsminsig.SignatureProof; genuine aggregates = blst sums of the leaves' signatures; "
+        "junk = valid point over another message; undecodable = wrong-length / off-curve bytes) and the closed-form node ranges it "
+        "uses to verify AsSparse output independently",
     ]
     c.assumes += [
         "ideal signatures (DESIGN 3): a signature value verifies for exactly one (key, message); ed25519 realises Good k m 0",
         "public key bytes are injective in the key identity; the trusted key list handed to ValidateFinalizedProof is non-empty",
+        "BLS tree: ideal aggregate signatures - Verify(aggregate key of leaf set S, sig) iff sig is the aggregate of the genuine "
+        "signatures of exactly S over the proof's message (aggregate unforgeability, no rogue-key attack, distinct keys)",
     ]
     c.grep_gate()
 
